@@ -580,6 +580,7 @@ func runC20(r *core.Run) *core.Violation {
 					return w.fail(mismatch{"replica.app-hash", "replica-app-hash", []string{"C20", "C18"}, fmt.Sprintf("node %d computed another app hash for block %d", k, bc.Height)})
 				}
 				c.nodes[k].n.Commit()
+				c.r.Witness(c.nodes[k].n.App.LastCommitID().Hash)
 			}
 			// after the commit every node rechecks its mempool against the new state and parameters
 			for k, nd := range c.nodes {
